@@ -48,3 +48,55 @@ func gnCase(c *x509.Certificate) (term, tag string, ok bool) {
 		cqBytes(string(sanVal)), cqList(present), cqBool(ian != nil), cqBytes(string(ianVal)), dns)
 	return fmt.Sprintf("(%s, %s)", view, cqList(sts)), tag, true
 }
+
+// the six raw-GeneralNames lints modelled in Kernels/GeneralNames.v (all_raw_lints), in the model's order
+var rawLints = []string{"e_ext_san_dns_not_ia5_string", "e_ext_ian_dns_not_ia5_string", "e_ext_san_uri_not_ia5", "e_ext_ian_uri_not_ia5", "e_ext_san_empty_name", "e_ext_ian_empty_name"}
+
+// rawNames parses a GeneralNames extension value with the harness's own TLV reader (not the lints' helper)
+func rawNames(val []byte) (string, bool) {
+	top, err := parseTLVs(val)
+	if err != nil || len(top) != 1 || top[0].tag != 0x30 {
+		return "", false
+	}
+	items, err := parseTLVs(top[0].content)
+	if err != nil {
+		return "", false
+	}
+	var l []string
+	for _, it := range items {
+		l = append(l, fmt.Sprintf("(%d, %s)", int(it.tag&0x1f), cqBytes(string(it.content))))
+	}
+	if len(l) == 0 {
+		return "(@nil (Z * bytes))", true
+	}
+	return cqList(l), true
+}
+
+func gnRawCase(c *x509.Certificate) (term, tag string, ok bool) {
+	if c.NotBefore.Before(time.Date(2013, 1, 1, 0, 0, 0, 0, time.UTC)) || c.NotBefore.After(time.Date(2035, 1, 1, 0, 0, 0, 0, time.UTC)) {
+		return "", "", false
+	}
+	san := util.GetExtFromCert(c, util.SubjectAlternateNameOID)
+	ian := util.GetExtFromCert(c, util.IssuerAlternateNameOID)
+	sanL, ianL := "(@nil (Z * bytes))", "(@nil (Z * bytes))"
+	if san != nil {
+		if sanL, ok = rawNames(san.Value); !ok {
+			return "", "", false
+		}
+	}
+	if ian != nil {
+		if ianL, ok = rawNames(ian.Value); !ok {
+			return "", "", false
+		}
+	}
+	sts := make([]string, len(rawLints))
+	for i, n := range rawLints {
+		s := -3
+		if l := lint.GlobalRegistry().CertificateLints().ByName(n); l != nil {
+			s = statusOrPanic(l.Execute(c, lint.NewEmptyConfig()))
+		}
+		sts[i] = cqZ(int64(s))
+		tag += fmt.Sprint(s)
+	}
+	return fmt.Sprintf("(mkRview %s %s %s %s, %s)", cqBool(san != nil), sanL, cqBool(ian != nil), ianL, cqList(sts)), tag, true
+}
